@@ -87,7 +87,7 @@ def _run_one(engine, prop, seed, tier, fault_free):
     case = engine.generate(prop, seed, tier, fault_free=fault_free)
     try:
         r = isolated(engine.execute, case) if getattr(engine, "ISOLATE", True) else engine.execute(case)
-    except IsolationError as e:
+    except (IsolationError, RuntimeError, OSError, subprocess.SubprocessError) as e:
         # the run died outside every oracle (an exception nobody expected, a hang): it proves
         # nothing either way.  It must not take the other runs of the batch with it: it is
         # counted, and a batch with dead runs and no violation is a harness error, never a pass
